@@ -290,6 +290,25 @@ def Frag.reopen (f : Frag) : Frag :=
     let c := ids.foldl (fun c r => c.bulkAdd r (f.store.count r)) c0
     { f with cache := c.invalidate }
 
+/-- `openCache` against the current storage for a list of persisted ids: a fresh cache of the
+fragment's kind and size, BulkAdd of a recount per id (ascending), then Invalidate. -/
+def Frag.openCacheWith (f : Frag) (ids : List Nat) : Frag :=
+  match f.cache.kind with
+  | .none => f
+  | _ =>
+    let c0 : Cache := { Cache.new f.cache.kind f.cache.size with hints := f.cache.hints, bad := f.cache.bad }
+    let c := ids.foldl (fun c r => c.bulkAdd r (f.store.count r)) c0
+    { f with cache := c.invalidate }
+
+/-- Fragment hand-over (cluster resize): `src.WriteTo` (tar archive: the storage, then — unless the
+source has no cache — the ids its cache holds) and `dst.ReadFrom`: the storage is replaced, and if
+the archive has a cache entry the cache is rebuilt by `openCache` against the NEW storage. -/
+def Frag.transfer (dst src : Frag) : Frag :=
+  let d : Frag := { dst with store := src.store }
+  match src.cache.kind with
+  | .none => d                       -- no cache entry in the archive: the receiver's cache is untouched
+  | _ => d.openCacheWith src.cache.ids
+
 /-! ### top -/
 
 structure TopOpt where
@@ -392,6 +411,13 @@ def importRoaringSet (f : Frag) (bits : List (Nat × Nat)) : Frag :=
         let (old, c) := c.get r
         c.bulkAdd r (old + (s.count r - f.store.count r))) f.cache
       { store := s, cache := c.recalculate }
+
+/-- Hand-over with the archive entries in the wrong order (cache before data): the receiver
+recounts the transferred ids against its OLD storage, then the storage is replaced. -/
+def transferCacheFirst (dst src : Frag) : Frag :=
+  match src.cache.kind with
+  | .none => { dst with store := src.store }
+  | _ => { dst.openCacheWith src.cache.ids with store := src.store }
 
 end Legacy
 
